@@ -11,6 +11,15 @@ import (
 // IPNetworks is a parameter that contains a list of IP networks.
 type IPNetworks []IPNetwork
 
+// MarshalJSON implements json.Marshaler.
+func (d IPNetworks) MarshalJSON() ([]byte, error) {
+	// a nil list must be encoded as an empty list, since null is refused when decoding
+	if d == nil {
+		return []byte("[]"), nil
+	}
+	return json.Marshal([]IPNetwork(d))
+}
+
 // UnmarshalEnv implements env.Unmarshaler.
 func (d *IPNetworks) UnmarshalEnv(_ string, v string) error {
 	if v == "" {
